@@ -84,7 +84,10 @@ def execute_threads(case):
 
 
 def strategy(tier):
-    return st.one_of(_seq_strategy(tier), _seq_strategy(tier), _seq_strategy(tier), thread_strategy())
+    free, phased = _seq_strategy(tier)
+    thr = thread_strategy()
+    # (explicit weights: nested one_of's are flattened and identical strategy objects collapse)
+    return st.integers(0, 99).flatmap(lambda r: thr if r < 25 else phased if r < 40 else free)
 
 
 def _seq_strategy(tier):
@@ -106,12 +109,24 @@ def _seq_strategy(tier):
         st.tuples(st.just('db_add'), st.integers(1, 3), st.booleans(), st.booleans()),
         st.tuples(st.just('import'), st.integers(1, 3)),
     ).map(list)
-    return st.fixed_dictionaries({
+    free = st.fixed_dictionaries({
         'kind': st.sampled_from(KINDS),
         'base_oids': st.lists(st.sampled_from(HIGH) | st.integers(1, 12), max_size=4),
         'rand': st.lists(st.integers(1, 14), min_size=1, max_size=12),
         'ops': st.lists(op, min_size=1, max_size=n),
     })
+    # the shape the quantifier names ("allocation, stores, ... packs"): ids issued and not yet stored when a
+    # pack that frees something runs, allocation right after it
+    k = st.integers(1, 3)
+    phased = st.fixed_dictionaries({
+        'kind': st.sampled_from(['fs', 'fs', 'mapping']),
+        'base_oids': st.lists(st.integers(1, 12), max_size=2),
+        'rand': st.just([1]),
+        'ops': st.tuples(st.lists(op, max_size=3), k, st.integers(0, 9), st.booleans(), k, k, st.lists(op, max_size=4)).map(
+            lambda t: t[0] + [['alloc', t[1]], ['store_issued', True], ['update', t[2]]] + ([['update', t[2]]] if t[3] else [])
+            + [['alloc', t[4]], ['pack'], ['alloc', t[5]]] + t[6]),
+    })
+    return free, phased
 
 
 class RandStream:
